@@ -75,6 +75,11 @@ Lemma eval_NIf1 f e s c cns : eval (S f) e s (NIf c cns None) =
   end.
 Proof. reflexivity. Qed.
 
+Lemma eval_NBreak f e s : eval (S f) e s NBreak = (OBrk, e, s).
+Proof. reflexivity. Qed.
+Lemma eval_NContinue f e s : eval (S f) e s NContinue = (OCont, e, s).
+Proof. reflexivity. Qed.
+
 Lemma sbeq_refl (a : list N) : beq a a = true.
 Proof. unfold beq. destruct (list_eq_dec N.eq_dec a a); [reflexivity|contradiction]. Qed.
 Lemma sbeq_neq (a b : list N) : a <> b -> beq a b = false.
@@ -190,17 +195,37 @@ Section Names.
   Proof. reflexivity. Qed.
 
   (* ---------------------------------------------------------------- statements, lists, blocks, loops *)
+  (* what the evaluator returns for a statement whose source-level run gave r *)
+  Definition stmt_concl (r : (list F.sval * F.sval) + P.stop) (res : outcome * env * state) : Prop :=
+    match r with
+    | inl (rho', v) => exists e' s', res = (OVal (inj v), e', s') /\ sem_inv rho' e' s'
+    | inr (P.StErr x) => exists e' s', res = (lift (inr x), e', s')
+    | inr (P.StBrk rho') => exists e' s', res = (OBrk, e', s') /\ sem_inv rho' e' s'
+    | inr (P.StCont rho') => exists e' s', res = (OCont, e', s') /\ sem_inv rho' e' s'
+    end.
+  (* the same for a block: the environment is the one the block was entered with *)
+  Definition block_concl (e : env) (r : (list F.sval * F.sval) + P.stop) (res : outcome * env * state) : Prop :=
+    match r with
+    | inl (rho', v) => exists s', res = (OVal (inj v), e, s') /\ sem_inv rho' e s'
+    | inr (P.StErr x) => exists s', res = (lift (inr x), e, s')
+    | inr (P.StBrk rho') => exists s', res = (OBrk, e, s') /\ sem_inv rho' e s'
+    | inr (P.StCont rho') => exists s', res = (OCont, e, s') /\ sem_inv rho' e s'
+    end.
+  Lemma block_stmt_concl e r res : block_concl e r res -> stmt_concl r res.
+  Proof.
+    destruct r as [[rho' v]|[x|rho'|rho']]; cbn [block_concl stmt_concl].
+    - intros [s' [H Hi]]. exists e, s'. split; assumption.
+    - intros [s' H]. exists e, s'. exact H.
+    - intros [s' [H Hi]]. exists e, s'. split; assumption.
+    - intros [s' [H Hi]]. exists e, s'. split; assumption.
+  Qed.
+
   (* what holds of one statement run with source fuel n, evaluated with fuel S f *)
   Definition stmt_sem (n : nat) : Prop :=
-    forall st rho e s f top,
-      sem_inv rho e s -> P.wf_stmt top (length rho) st = true -> P.next_k (length rho) st <= length names ->
-      P.sheight st <= f -> n <= f ->
-      match P.run_stmt n rho st with
-      | None => True
-      | Some (inr x) => exists e' s', eval (S f) e s (P.embed_stmt names (length rho) st) = (lift (inr x), e', s')
-      | Some (inl (rho', v)) => exists e' s',
-          eval (S f) e s (P.embed_stmt names (length rho) st) = (OVal (inj v), e', s') /\ sem_inv rho' e' s'
-      end.
+    forall st rho e s f top lp r,
+      sem_inv rho e s -> P.wf_stmt top lp (length rho) st = true -> P.next_k (length rho) st <= length names ->
+      P.sheight st <= f -> n <= f -> P.run_stmt n rho st = Some r ->
+      stmt_concl r (eval (S f) e s (P.embed_stmt names (length rho) st)).
 
   Lemma stmt_last n rho st rho' v : P.run_stmt n rho st = Some (inl (rho', v)) ->
     (if is_expression (P.embed_stmt names (length rho) st) then inj v else VNil) = inj v.
@@ -209,145 +234,170 @@ Section Names.
     rewrite (PF.run_stmt_value n rho st rho' v Hr E). reflexivity.
   Qed.
 
-  Lemma es_list n f : stmt_sem n -> n <= f -> forall l rho e s last top,
-    sem_inv rho e s -> P.wf_stmts top (length rho) l = true -> length rho + P.ndecls l <= length names ->
-    P.max_height l <= f ->
-    match P.run_stmts n rho l last with
-    | None => True
-    | Some (inr x) => exists e' s', es_loop (S f) e s (P.embed_stmts names (length rho) l) (inj last) = (lift (inr x), e', s')
-    | Some (inl (rho', v)) => exists e' s',
-        es_loop (S f) e s (P.embed_stmts names (length rho) l) (inj last) = (OVal (inj v), e', s') /\ sem_inv rho' e' s'
-    end.
+  Lemma es_list n f : stmt_sem n -> n <= f -> forall l rho e s last top lp r,
+    sem_inv rho e s -> P.wf_stmts top lp (length rho) l = true -> length rho + P.ndecls l <= length names ->
+    P.max_height l <= f -> P.run_stmts n rho l last = Some r ->
+    stmt_concl r (es_loop (S f) e s (P.embed_stmts names (length rho) l) (inj last)).
   Proof.
-    intros Hst Hnf. induction l as [|st r IH]; intros rho e s last top Hinv Hwf Hn Hh.
-    - cbn. exists e, s. split; [reflexivity|exact Hinv].
+    intros Hst Hnf. induction l as [|st r0 IH]; intros rho e s last top lp r Hinv Hwf Hn Hh Hr.
+    - cbn in Hr. inversion Hr; subst r. cbn. exists e, s. split; [reflexivity|exact Hinv].
     - rewrite PF.wf_stmts_cons in Hwf. apply andb_true_iff in Hwf. destruct Hwf as [Hws Hwr].
-      rewrite PF.max_height_cons in Hh. rewrite PF.embed_stmts_cons, PF.run_stmts_cons, es_loop_cons.
+      rewrite PF.max_height_cons in Hh. rewrite PF.run_stmts_cons in Hr. rewrite PF.embed_stmts_cons, es_loop_cons.
       assert (Hnk : P.next_k (length rho) st <= length names) by (rewrite <- PF.ndecls_cons in Hn; lia).
-      pose proof (Hst st rho e s f top Hinv Hws Hnk ltac:(lia) Hnf) as He.
-      destruct (P.run_stmt n rho st) as [[[rho1 v1]|x]|] eqn:Er; [| |exact Logic.I].
-      + destruct He as [e1 [s1 [He Hinv1]]]. rewrite He, (stmt_last n rho st rho1 v1 Er).
-        pose proof (PF.run_stmt_length n rho st top rho1 v1 Hws Er) as Hlen.
+      destruct (P.run_stmt n rho st) as [[[rho1 v1]|x]|] eqn:Er; [| |discriminate].
+      + pose proof (Hst st rho e s f top lp _ Hinv Hws Hnk ltac:(lia) Hnf Er) as He. cbn [stmt_concl] in He.
+        destruct He as [e1 [s1 [He Hinv1]]]. rewrite He, (stmt_last n rho st rho1 v1 Er).
+        pose proof (PF.run_stmt_length n rho st top lp _ Hws Er) as Hlen. cbn [PF.len_ok] in Hlen.
         rewrite <- Hlen.
-        apply (IH rho1 e1 s1 v1 top Hinv1); [rewrite Hlen; exact Hwr|rewrite Hlen, PF.ndecls_cons; exact Hn|lia].
-      + destruct He as [e1 [s1 He]]. rewrite He. exists e1, s1. destruct x; reflexivity.
+        apply (IH rho1 e1 s1 v1 top lp r Hinv1); [rewrite Hlen; exact Hwr|rewrite Hlen, PF.ndecls_cons; exact Hn|lia|exact Hr].
+      + inversion Hr; subst r.
+        pose proof (Hst st rho e s f top lp _ Hinv Hws Hnk ltac:(lia) Hnf Er) as He.
+        destruct x as [x|rho1|rho1]; cbn [stmt_concl] in *.
+        * destruct He as [e1 [s1 He]]. rewrite He. exists e1, s1. destruct x; reflexivity.
+        * destruct He as [e1 [s1 [He Hi]]]. rewrite He. exists e1, s1. split; [reflexivity|exact Hi].
+        * destruct He as [e1 [s1 [He Hi]]]. rewrite He. exists e1, s1. split; [reflexivity|exact Hi].
   Qed.
 
-  Lemma eblock_list n f : stmt_sem n -> n <= f -> forall l rho e s,
-    sem_inv rho e s -> P.wf_stmts false (length rho) l = true -> P.max_height l <= f ->
-    match P.run_stmts n rho l F.VNil with
-    | None => True
-    | Some (inr x) => exists s', eblock (S f) e s (P.embed_stmts names (length rho) l) = (lift (inr x), e, s')
-    | Some (inl (rho', v)) => exists s',
-        eblock (S f) e s (P.embed_stmts names (length rho) l) = (OVal (inj v), e, s') /\ sem_inv rho' e s'
-    end.
+  Lemma eblock_list n f : stmt_sem n -> n <= f -> forall l rho e s lp r,
+    sem_inv rho e s -> P.wf_stmts false lp (length rho) l = true -> P.max_height l <= f ->
+    P.run_stmts n rho l F.VNil = Some r ->
+    block_concl e r (eblock (S f) e s (P.embed_stmts names (length rho) l)).
   Proof.
-    intros Hst Hnf l rho e s Hinv Hwf Hh. unfold eblock.
+    intros Hst Hnf l rho e s lp r Hinv Hwf Hh Hr. unfold eblock.
     assert (Hn : length rho + P.ndecls l <= length names)
-      by (rewrite (PF.wf_false_ndecls _ _ Hwf); destruct Hinv as [Hl _]; lia).
-    pose proof (es_list n f Hst Hnf l rho ([] :: e) s F.VNil false (sem_inv_push rho e s Hinv) Hwf Hn Hh) as H.
-    destruct (P.run_stmts n rho l F.VNil) as [[[rho' v]|x]|] eqn:Er; [| |exact Logic.I].
-    - destruct H as [e' [s' [H Hinv']]]. change (inj F.VNil) with VNil in H. rewrite H.
-      exists s'. split; [reflexivity|].
-      exact (sem_inv_swap rho e s rho' e' s' Hinv Hinv' (PF.run_stmts_length n l rho F.VNil rho' v Hwf Er)).
-    - destruct H as [e' [s' H]]. change (inj F.VNil) with VNil in H. rewrite H. exists s'. reflexivity.
+      by (rewrite (PF.wf_false_ndecls _ _ _ Hwf); destruct Hinv as [Hl _]; lia).
+    pose proof (es_list n f Hst Hnf l rho ([] :: e) s F.VNil false lp r (sem_inv_push rho e s Hinv) Hwf Hn Hh Hr) as H.
+    pose proof (PF.run_stmts_length n l rho F.VNil lp r Hwf Hr) as Hlen.
+    change (inj F.VNil) with VNil in H.
+    destruct r as [[rho' v]|[x|rho'|rho']]; cbn [stmt_concl block_concl PF.lens_ok] in *.
+    - destruct H as [e' [s' [H Hinv']]]. rewrite H. exists s'. split; [reflexivity|].
+      exact (sem_inv_swap rho e s rho' e' s' Hinv Hinv' Hlen).
+    - destruct H as [e' [s' H]]. rewrite H. exists s'. reflexivity.
+    - destruct H as [e' [s' [H Hinv']]]. rewrite H. exists s'. split; [reflexivity|].
+      exact (sem_inv_swap rho e s rho' e' s' Hinv Hinv' Hlen).
+    - destruct H as [e' [s' [H Hinv']]]. rewrite H. exists s'. split; [reflexivity|].
+      exact (sem_inv_swap rho e s rho' e' s' Hinv Hinv' Hlen).
   Qed.
 
   (* the condition loop: source fuel m, at most k rounds, body evaluated with fuel S f *)
   Lemma wloop_sem f c b e : forall m, (forall j, j < m -> stmt_sem j) -> m <= S f ->
     F.height c <= S f -> P.max_height b <= f ->
-    forall k rho s, m <= k -> sem_inv rho e s -> F.wf (length rho) c = true -> P.wf_stmts false (length rho) b = true ->
-    match P.run_stmt m rho (P.SWhile c b) with
-    | None => True
-    | Some (inr x) => exists s', wloop (S f) e (F.embed names c) (P.embed_stmts names (length rho) b) k s = (lift (inr x), e, s')
-    | Some (inl (rho', v)) => exists s',
+    forall k rho s r, m <= k -> sem_inv rho e s -> F.wf (length rho) c = true -> P.wf_stmts false true (length rho) b = true ->
+    P.run_stmt m rho (P.SWhile c b) = Some r ->
+    match r with
+    | inl (rho', v) => exists s',
         wloop (S f) e (F.embed names c) (P.embed_stmts names (length rho) b) k s = (OVal VNil, e, s') /\
         sem_inv rho' e s' /\ v = F.VNil
+    | inr (P.StErr x) => exists s', wloop (S f) e (F.embed names c) (P.embed_stmts names (length rho) b) k s = (lift (inr x), e, s')
+    | inr _ => False
     end.
   Proof.
-    induction m as [|m IH]; intros Hst Hmf Hhc Hhb k rho s Hk Hinv Hwc Hwb; [exact Logic.I|].
+    induction m as [|m IH]; intros Hst Hmf Hhc Hhb k rho s r Hk Hinv Hwc Hwb Hr; [discriminate|].
     destruct k as [|k]; [lia|].
-    rewrite PF.run_SWhile, wloop_S.
+    rewrite PF.run_SWhile in Hr. rewrite wloop_S.
     pose proof (sem_inv_push rho e s Hinv) as Hinv1.
     rewrite (sem_scalar names rho c (S f) ([] :: e) s Hhc Hwc (sem_inv_env_ok rho ([] :: e) s Hinv1)).
-    destruct (F.sev rho c) as [vc|x]; [|exists s; destruct x; reflexivity].
+    destruct (F.sev rho c) as [vc|x]; [|inversion Hr; subst r; exists s; destruct x; reflexivity].
     cbn [lift]. rewrite truthy_inj.
-    destruct (F.struthy vc); [|exists s; split; [reflexivity|split; [exact Hinv|reflexivity]]].
-    pose proof (eblock_list m f (Hst m ltac:(lia)) ltac:(lia) b rho ([] :: e) s Hinv1 Hwb Hhb) as Hb.
-    destruct (P.run_stmts m rho b F.VNil) as [[[rho1 v1]|x]|] eqn:Er; [| |exact Logic.I].
-    - destruct Hb as [s1 [Hb Hinv2]]. rewrite Hb.
-      pose proof (PF.run_stmts_length m b rho F.VNil rho1 v1 Hwb Er) as Hlen.
-      assert (Hinv3 : sem_inv rho1 e s1) by (destruct Hinv as [_ [Hne _]]; exact (sem_inv_pop rho1 e s1 Hne Hinv2)).
-      rewrite <- Hlen.
-      apply (IH ltac:(intros j Hj; apply Hst; lia) ltac:(lia) Hhc Hhb k rho1 s1 ltac:(lia) Hinv3);
-        rewrite Hlen; assumption.
-    - destruct Hb as [s1 Hb]. rewrite Hb. exists s1. destruct x; reflexivity.
+    destruct (F.struthy vc); [|inversion Hr; subst r; exists s; split; [reflexivity|split; [exact Hinv|reflexivity]]].
+    assert (Hne : e <> []) by (destruct Hinv as [_ [Hne _]]; exact Hne).
+    assert (Hnext : forall rho1 s1, length rho1 = length rho -> sem_inv rho1 ([] :: e) s1 ->
+              P.run_stmt m rho1 (P.SWhile c b) = Some r ->
+              match r with
+              | inl (rho', v) => exists s', wloop (S f) e (F.embed names c) (P.embed_stmts names (length rho) b) k s1 = (OVal VNil, e, s') /\
+                                            sem_inv rho' e s' /\ v = F.VNil
+              | inr (P.StErr x) => exists s', wloop (S f) e (F.embed names c) (P.embed_stmts names (length rho) b) k s1 = (lift (inr x), e, s')
+              | inr _ => False
+              end).
+    { intros rho1 s1 Hlen Hinv2 Hr1. rewrite <- Hlen.
+      apply (IH ltac:(intros j Hj; apply Hst; lia) ltac:(lia) Hhc Hhb k rho1 s1 r ltac:(lia) (sem_inv_pop rho1 e s1 Hne Hinv2));
+        try (rewrite Hlen; assumption). exact Hr1. }
+    destruct (P.run_stmts m rho b F.VNil) as [[[rho1 v1]|[x|rho1|rho1]]|] eqn:Er; [| | | |discriminate].
+    - pose proof (eblock_list m f (Hst m ltac:(lia)) ltac:(lia) b rho ([] :: e) s true _ Hinv1 Hwb Hhb Er) as Hb.
+      cbn [block_concl] in Hb. destruct Hb as [s1 [Hb Hinv2]]. rewrite Hb.
+      pose proof (PF.run_stmts_length m b rho F.VNil true _ Hwb Er) as Hlen. cbn [PF.lens_ok] in Hlen.
+      exact (Hnext rho1 s1 Hlen Hinv2 Hr).
+    - pose proof (eblock_list m f (Hst m ltac:(lia)) ltac:(lia) b rho ([] :: e) s true _ Hinv1 Hwb Hhb Er) as Hb.
+      cbn [block_concl] in Hb. destruct Hb as [s1 Hb]. rewrite Hb. inversion Hr; subst r. exists s1. destruct x; reflexivity.
+    - (* break: the loop ends *)
+      pose proof (eblock_list m f (Hst m ltac:(lia)) ltac:(lia) b rho ([] :: e) s true _ Hinv1 Hwb Hhb Er) as Hb.
+      cbn [block_concl] in Hb. destruct Hb as [s1 [Hb Hinv2]]. rewrite Hb. inversion Hr; subst r.
+      exists s1. split; [reflexivity|]. split; [exact (sem_inv_pop rho1 e s1 Hne Hinv2)|reflexivity].
+    - (* continue: the next round *)
+      pose proof (eblock_list m f (Hst m ltac:(lia)) ltac:(lia) b rho ([] :: e) s true _ Hinv1 Hwb Hhb Er) as Hb.
+      cbn [block_concl] in Hb. destruct Hb as [s1 [Hb Hinv2]]. rewrite Hb.
+      pose proof (PF.run_stmts_length m b rho F.VNil true _ Hwb Er) as Hlen. cbn [PF.lens_ok] in Hlen.
+      exact (Hnext rho1 s1 Hlen Hinv2 Hr).
   Qed.
 
   Theorem eval_stmt : forall n, stmt_sem n.
   Proof.
     induction n as [n IH] using lt_wf_ind.
-    destruct n as [|n]; [intros st rho e s f top _ _ _ _ _; exact Logic.I|].
-    intros st rho e s f top Hinv Hwf Hk Hf Hnf. pose proof (sem_inv_env_ok rho e s Hinv) as Henv.
-    destruct st as [x|i x|x|c t el|c t|c b].
+    destruct n as [|n]; [intros st rho e s f top lp r _ _ _ _ _ Hr; discriminate|].
+    intros st rho e s f top lp r Hinv Hwf Hk Hf Hnf Hr. pose proof (sem_inv_env_ok rho e s Hinv) as Henv.
+    destruct st as [x|i x|x|c t el|c t|c b| |].
     - (* x := e *)
       cbn [P.embed_stmt P.wf_stmt P.next_k P.sheight P.run_stmt] in *.
       apply andb_true_iff in Hwf. destruct Hwf as [_ Hwf].
       rewrite eval_NVar, (sem_scalar names rho x f e s Hf Hwf Henv).
-      destruct (F.sev rho x) as [v|[|]]; cbn [lift]; try (eexists; eexists; reflexivity).
-      eexists. eexists. split; [reflexivity|].
-      destruct Hinv as [Hl [Hne [Hst H]]].
-      exact (sem_inv_decl rho e s v (conj Hl (conj Hne (conj Hst H))) ltac:(lia)).
+      destruct (F.sev rho x) as [v|xx]; cbn [P.of_sev] in Hr; inversion Hr; subst r; cbn [lift stmt_concl].
+      + eexists. eexists. split; [reflexivity|].
+        destruct Hinv as [Hl [Hne [Hst H]]].
+        exact (sem_inv_decl rho e s v (conj Hl (conj Hne (conj Hst H))) ltac:(lia)).
+      + destruct xx; eexists; eexists; reflexivity.
     - (* x = e *)
       cbn [P.embed_stmt P.wf_stmt P.next_k P.sheight P.run_stmt] in *.
       apply andb_true_iff in Hwf. destruct Hwf as [Hi Hwf]. apply Nat.ltb_lt in Hi.
       rewrite eval_NAssign_eq, (sem_scalar names rho x f e s Hf Hwf Henv).
-      destruct (F.sev rho x) as [v|[|]]; cbn [lift]; try (eexists; eexists; reflexivity).
-      destruct Hinv as [Hl [Hne [Hst H]]]. destruct (H i Hi) as [Hlk _]. rewrite Hlk.
-      eexists. eexists. split; [reflexivity|].
-      exact (sem_inv_set rho e s i v (conj Hl (conj Hne (conj Hst H))) Hi).
+      destruct (F.sev rho x) as [v|xx]; cbn [P.of_sev] in Hr; inversion Hr; subst r; cbn [lift stmt_concl].
+      + destruct Hinv as [Hl [Hne [Hst H]]]. destruct (H i Hi) as [Hlk _]. rewrite Hlk.
+        eexists. eexists. split; [reflexivity|].
+        exact (sem_inv_set rho e s i v (conj Hl (conj Hne (conj Hst H))) Hi).
+      + destruct xx; eexists; eexists; reflexivity.
     - (* e *)
       cbn [P.embed_stmt P.wf_stmt P.next_k P.sheight P.run_stmt] in *.
       rewrite (sem_scalar names rho x (S f) e s ltac:(lia) Hwf Henv).
-      destruct (F.sev rho x) as [v|[|]]; cbn [lift]; try (eexists; eexists; reflexivity).
-      exists e, s. split; [reflexivity|exact Hinv].
+      destruct (F.sev rho x) as [v|xx]; cbn [P.of_sev] in Hr; inversion Hr; subst r; cbn [lift stmt_concl].
+      + exists e, s. split; [reflexivity|exact Hinv].
+      + destruct xx; eexists; eexists; reflexivity.
     - (* if *)
       rewrite PF.wf_SIf in Hwf. apply andb_true_iff in Hwf. destruct Hwf as [Hwct Hwe].
       apply andb_true_iff in Hwct. destruct Hwct as [Hwc Hwt].
       rewrite PF.sheight_SIf in Hf. destruct f as [|f]; [lia|].
-      rewrite PF.embed_SIf, PF.run_SIf, eval_NIf, (sem_scalar names rho c (S f) e s ltac:(lia) Hwc Henv).
-      destruct (F.sev rho c) as [vc|[|]]; cbn [lift]; try (eexists; eexists; reflexivity).
-      rewrite truthy_inj.
-      destruct (F.struthy vc).
-      + pose proof (eblock_list n f (IH n ltac:(lia)) ltac:(lia) t rho e s Hinv Hwt ltac:(lia)) as H.
-        destruct (P.run_stmts n rho t F.VNil) as [[[rho' v]|xx]|]; [| |exact Logic.I].
-        * destruct H as [s' [H Hinv']]. exists e, s'. split; assumption.
-        * destruct H as [s' H]. exists e, s'. exact H.
-      + pose proof (eblock_list n f (IH n ltac:(lia)) ltac:(lia) el rho e s Hinv Hwe ltac:(lia)) as H.
-        destruct (P.run_stmts n rho el F.VNil) as [[[rho' v]|xx]|]; [| |exact Logic.I].
-        * destruct H as [s' [H Hinv']]. exists e, s'. split; assumption.
-        * destruct H as [s' H]. exists e, s'. exact H.
+      rewrite PF.run_SIf in Hr.
+      rewrite PF.embed_SIf, eval_NIf, (sem_scalar names rho c (S f) e s ltac:(lia) Hwc Henv).
+      destruct (F.sev rho c) as [vc|xx].
+      2:{ inversion Hr; subst r. cbn [lift stmt_concl]. destruct xx; eexists; eexists; reflexivity. }
+      cbn [lift]. rewrite truthy_inj.
+      destruct (F.struthy vc); apply (block_stmt_concl e).
+      + exact (eblock_list n f (IH n ltac:(lia)) ltac:(lia) t rho e s lp r Hinv Hwt ltac:(lia) Hr).
+      + exact (eblock_list n f (IH n ltac:(lia)) ltac:(lia) el rho e s lp r Hinv Hwe ltac:(lia) Hr).
     - (* if without else *)
       rewrite PF.wf_SIf1 in Hwf. apply andb_true_iff in Hwf. destruct Hwf as [Hwc Hwt].
       rewrite PF.sheight_SIf1 in Hf. destruct f as [|f]; [lia|].
-      rewrite PF.embed_SIf1, PF.run_SIf1, eval_NIf1, (sem_scalar names rho c (S f) e s ltac:(lia) Hwc Henv).
-      destruct (F.sev rho c) as [vc|[|]]; cbn [lift]; try (eexists; eexists; reflexivity).
-      rewrite truthy_inj.
+      rewrite PF.run_SIf1 in Hr.
+      rewrite PF.embed_SIf1, eval_NIf1, (sem_scalar names rho c (S f) e s ltac:(lia) Hwc Henv).
+      destruct (F.sev rho c) as [vc|xx].
+      2:{ inversion Hr; subst r. cbn [lift stmt_concl]. destruct xx; eexists; eexists; reflexivity. }
+      cbn [lift]. rewrite truthy_inj.
       destruct (F.struthy vc).
-      + pose proof (eblock_list n f (IH n ltac:(lia)) ltac:(lia) t rho e s Hinv Hwt ltac:(lia)) as H.
-        destruct (P.run_stmts n rho t F.VNil) as [[[rho' v]|xx]|]; [| |exact Logic.I].
-        * destruct H as [s' [H Hinv']]. exists e, s'. split; assumption.
-        * destruct H as [s' H]. exists e, s'. exact H.
-      + exists e, s. split; [reflexivity|exact Hinv].
+      + apply (block_stmt_concl e). exact (eblock_list n f (IH n ltac:(lia)) ltac:(lia) t rho e s lp r Hinv Hwt ltac:(lia) Hr).
+      + inversion Hr; subst r. exists e, s. split; [reflexivity|exact Hinv].
     - (* for *)
       rewrite PF.wf_SWhile in Hwf. apply andb_true_iff in Hwf. destruct Hwf as [Hwc Hwb].
       rewrite PF.sheight_SWhile in Hf. destruct f as [|f]; [lia|].
       rewrite PF.embed_SWhile, eval_NFor_cond.
       pose proof (wloop_sem f c b e (S n) ltac:(intros j Hj; apply IH; lia) ltac:(lia) ltac:(lia) ltac:(lia)
-                    (S f) rho s ltac:(lia) Hinv Hwc Hwb) as H.
-      destruct (P.run_stmt (S n) rho (P.SWhile c b)) as [[[rho' v]|xx]|]; [| |exact Logic.I].
+                    (S f) rho s r ltac:(lia) Hinv Hwc Hwb Hr) as H.
+      destruct r as [[rho' v]|[xx|rho'|rho']]; cbn [stmt_concl]; try contradiction.
       + destruct H as [s' [H [Hinv' ->]]]. exists e, s'. split; assumption.
       + destruct H as [s' H]. exists e, s'. exact H.
+    - (* break *)
+      cbn [P.run_stmt] in Hr. inversion Hr; subst r. cbn [P.embed_stmt stmt_concl]. rewrite eval_NBreak.
+      exists e, s. split; [reflexivity|exact Hinv].
+    - (* continue *)
+      cbn [P.run_stmt] in Hr. inversion Hr; subst r. cbn [P.embed_stmt stmt_concl]. rewrite eval_NContinue.
+      exists e, s. split; [reflexivity|exact Hinv].
   Qed.
 
   (* ---------------------------------------------------------------- the statement loop of Sem.run *)
@@ -367,27 +417,30 @@ Section Names.
     end.
   Proof. reflexivity. Qed.
 
-  Definition lift_top (r : (list F.sval * F.sval) + F.serr) : outcome :=
-    match r with inl (_, v) => OVal (inj v) | inr x => lift (inr x) end.
+  (* the outcome of a whole program: break / continue cannot reach the top level of a well-formed program *)
+  Definition lift_top (r : (list F.sval * F.sval) + P.stop) : outcome :=
+    match r with inl (_, v) => OVal (inj v) | inr (P.StErr x) => lift (inr x) | inr (P.StBrk _) => OBrk | inr (P.StCont _) => OCont end.
 
-  Lemma go_program n f : n <= f -> forall l rho e s last,
-    sem_inv rho e s -> P.wf_stmts true (length rho) l = true -> length rho + P.ndecls l <= length names ->
-    P.max_height l <= f ->
-    match P.run_stmts n rho l last with
-    | None => True
-    | Some r => fst (go_loop (S f) e s (P.embed_stmts names (length rho) l) (inj last)) = lift_top r
-    end.
+  Lemma go_program n f : n <= f -> forall l rho e s last r,
+    sem_inv rho e s -> P.wf_stmts true false (length rho) l = true -> length rho + P.ndecls l <= length names ->
+    P.max_height l <= f -> P.run_stmts n rho l last = Some r ->
+    fst (go_loop (S f) e s (P.embed_stmts names (length rho) l) (inj last)) = lift_top r.
   Proof.
-    intros Hnf. induction l as [|st r IH]; intros rho e s last Hinv Hwf Hn Hh; [reflexivity|].
-    rewrite PF.wf_stmts_cons in Hwf. apply andb_true_iff in Hwf. destruct Hwf as [Hws Hwr].
-    rewrite PF.max_height_cons in Hh. rewrite PF.embed_stmts_cons, PF.run_stmts_cons, go_loop_cons.
-    assert (Hnk : P.next_k (length rho) st <= length names) by (rewrite <- PF.ndecls_cons in Hn; lia).
-    pose proof (eval_stmt n st rho e s f true Hinv Hws Hnk ltac:(lia) Hnf) as He.
-    destruct (P.run_stmt n rho st) as [[[rho1 v1]|x]|] eqn:Er; [| |exact Logic.I].
-    - destruct He as [e1 [s1 [He Hinv1]]]. rewrite He, (stmt_last n rho st rho1 v1 Er).
-      pose proof (PF.run_stmt_length n rho st true rho1 v1 Hws Er) as Hlen.
-      rewrite <- Hlen. apply IH; [exact Hinv1|rewrite Hlen; exact Hwr|rewrite Hlen, PF.ndecls_cons; exact Hn|lia].
-    - destruct He as [e1 [s1 He]]. rewrite He. destruct x; reflexivity.
+    intros Hnf. induction l as [|st r0 IH]; intros rho e s last r Hinv Hwf Hn Hh Hr.
+    - cbn in Hr. inversion Hr. reflexivity.
+    - rewrite PF.wf_stmts_cons in Hwf. apply andb_true_iff in Hwf. destruct Hwf as [Hws Hwr].
+      rewrite PF.max_height_cons in Hh. rewrite PF.run_stmts_cons in Hr. rewrite PF.embed_stmts_cons, go_loop_cons.
+      assert (Hnk : P.next_k (length rho) st <= length names) by (rewrite <- PF.ndecls_cons in Hn; lia).
+      destruct (P.run_stmt n rho st) as [[[rho1 v1]|x]|] eqn:Er; [| |discriminate].
+      + pose proof (eval_stmt n st rho e s f true false _ Hinv Hws Hnk ltac:(lia) Hnf Er) as He. cbn [stmt_concl] in He.
+        destruct He as [e1 [s1 [He Hinv1]]]. rewrite He, (stmt_last n rho st rho1 v1 Er).
+        pose proof (PF.run_stmt_length n rho st true false _ Hws Er) as Hlen. cbn [PF.len_ok] in Hlen.
+        rewrite <- Hlen. apply IH; [exact Hinv1|rewrite Hlen; exact Hwr|rewrite Hlen, PF.ndecls_cons; exact Hn|lia|exact Hr].
+      + inversion Hr; subst r.
+        pose proof (eval_stmt n st rho e s f true false _ Hinv Hws Hnk ltac:(lia) Hnf Er) as He.
+        pose proof (PF.no_escape n rho st true _ Hws Er) as Hno.
+        destruct x as [x|rho1|rho1]; cbn [stmt_concl PF.no_ctl] in *; try contradiction.
+        destruct He as [e1 [s1 He]]. rewrite He. destruct x; reflexivity.
   Qed.
 
   Lemma predeclare_none : forall l k acc,
@@ -398,17 +451,16 @@ Section Names.
   Proof.
     induction l as [|st r IH]; intros k acc; [reflexivity|].
     rewrite PF.embed_stmts_cons. cbn [fold_left].
-    destruct st as [x|i x|x|c t el|c t|c b]; cbn [P.embed_stmt]; try apply IH.
+    destruct st as [x|i x|x|c t el|c t|c b| |]; cbn [P.embed_stmt]; try apply IH.
     destruct x; cbn [F.embed]; apply IH.
   Qed.
 
   Theorem sem_var_program l n f r :
-    P.wf_stmts true 0 l = true -> P.ndecls l <= length names -> P.max_height l <= f -> n <= f ->
+    P.wf_stmts true false 0 l = true -> P.ndecls l <= length names -> P.max_height l <= f -> n <= f ->
     P.run_stmts n [] l F.VNil = Some r ->
     fst (Sem.run (S f) (P.embed_stmts names 0 l)) = lift_top r.
   Proof.
     intros Hwf Hn Hh Hnf Hr. unfold Sem.run. rewrite predeclare_none.
-    pose proof (go_program n f Hnf l [] ([] :: global_env) init_state F.VNil sem_inv_init Hwf Hn Hh) as H.
-    rewrite Hr in H. exact H.
+    exact (go_program n f Hnf l [] ([] :: global_env) init_state F.VNil r sem_inv_init Hwf Hn Hh Hr).
   Qed.
 End Names.
